@@ -3,6 +3,8 @@
    any statement, trailing blanks or a trailing comment after any statement, an indentation
    unit.  [render] turns a laid-out tree into lines; two line lists are re-layouts of each
    other when they are renderings of laid-out trees with the same skeleton ([lerase]).
+   (Guard after the repair of the comment handling: junk lines at any column, trailing comments
+   on every statement line.)
    The harness renders its generated layouts with the extracted [render_top], so the relation
    in the theorems is literally the generator's.  [wf_*] is the executable guard.
    No proofs in this file. *)
@@ -66,13 +68,7 @@ Definition ws_only (t : text) : bool := forallb (fun c => (c =? ch_space) || (c 
 Definition unit_ok (u : text) : bool := negb (is_nil u) && ws_only u.
 
 (* ---------------------------------------------------------------- the guard *)
-(* junk lines *)
-Definition comment_only (l : text) : bool := starts_hash (lstrip l).
-Definition junk (l : text) : bool := is_blank l || comment_only l.
-(* deep b l: the line cannot end a block whose header has indentation b *)
-Definition deep (b : nat) (l : text) : bool := is_blank l || (b <? indent_of l)%nat.
-Definition junk_ok (b : option nat) (l : text) : bool :=
-  junk l && match b with Some n => deep n l | None => true end.
+(* junk lines: [Lex.junk] (blank / white-space-only / comment-only at ANY column) *)
 
 (* trailing part of a statement line: blanks, optionally followed by a comment *)
 Definition trail_ok (allow_comment : bool) (tr : text) : bool :=
@@ -140,36 +136,27 @@ Definition accepts_node (c : cstate) (n : ltree) : bool :=
 Definition after_node (n : ltree) : cstate :=
   match n with LLeaf _ _ _ => CNone | LBlock _ k _ _ _ => after_kind k end.
 
-Section Guard.
-  Variable ind : nat -> text.
-  Definition iind (d : nat) : nat := indent_of (ind d).
-  (* the junk bound of an ordinary statement at depth d: the indentation of the enclosing header
-     (comment-only lines must be indented deeper than it); a comment-only line before an
-     elif / else / except must be indented deeper than that line itself *)
-  Definition jbound (d : nat) : option nat := match d with O => None | S d' => Some (iind d') end.
+(* a junk line may stand at any column before any statement (also before elif / else / except);
+   a trailing comment may follow any statement, including block headers at column 0 of the script
+   and elif / else / except lines *)
+Fixpoint wf_tree (n : ltree) : bool :=
+  match n with
+  | LLeaf pre s tr =>
+      forallb junk pre && stmt_ok s && is_none (classify s) && no_cont s && trail_ok true tr
+  | LBlock pre k h tr body =>
+      forallb junk pre && stmt_ok h && hdr_ok k h && trail_ok true tr
+      && (fix seq (c : cstate) (ns : list ltree) : bool :=
+            match ns with
+            | [] => true
+            | m :: r => wf_tree m && accepts_node c m && seq (after_node m) r
+            end) CNone body
+  end.
 
-  (* top = the tree is rendered at column 0 of the whole script, where parse() classifies
-     block headers on text that still contains the trailing comment *)
-  Fixpoint wf_tree (top : bool) (d : nat) (n : ltree) : bool :=
-    match n with
-    | LLeaf pre s tr =>
-        forallb (junk_ok (jbound d)) pre && stmt_ok s && is_none (classify s) && no_cont s && trail_ok true tr
-    | LBlock pre k h tr body =>
-        forallb (junk_ok (if is_cont k then Some (iind d) else jbound d)) pre
-        && stmt_ok h && hdr_ok k h && trail_ok (negb (is_cont k) && negb top) tr
-        && (fix seq (c : cstate) (ns : list ltree) : bool :=
-              match ns with
-              | [] => true
-              | m :: r => wf_tree false (S d) m && accepts_node c m && seq (after_node m) r
-              end) CNone body
-    end.
-
-  Fixpoint wf_seq (top : bool) (d : nat) (c : cstate) (ns : list ltree) : bool :=
-    match ns with
-    | [] => true
-    | m :: r => wf_tree top d m && accepts_node c m && wf_seq top d (after_node m) r
-    end.
-End Guard.
+Fixpoint wf_seq (c : cstate) (ns : list ltree) : bool :=
+  match ns with
+  | [] => true
+  | m :: r => wf_tree m && accepts_node c m && wf_seq (after_node m) r
+  end.
 
 (* ---------------------------------------------------------------- the guard at column 0 of the script *)
 (* one LChain = exactly one top-level statement: a simple statement, a while, a for, an
@@ -190,24 +177,24 @@ Definition chain_ok (ns : list ltree) : bool :=
   | _ => false
   end.
 
-Definition wf_top (ind : nat -> text) (t : ltop) : bool :=
+Definition wf_top (t : ltop) : bool :=
   match t with
-  | LChain ns => chain_ok ns && wf_seq ind true O CNone ns
+  | LChain ns => chain_ok ns && wf_seq CNone ns
   | LMain pre h tr body =>
-      forallb (junk_ok None) pre && stmt_ok h && re_while_true h && is_blank tr && wf_seq ind false 1%nat CNone body
+      forallb junk pre && stmt_ok h && re_while_true h && trail_ok true tr && wf_seq CNone body
   | LDef pre h tr body =>
-      forallb (junk_ok None) pre && stmt_ok h && re_def h && is_blank tr && wf_seq ind false 1%nat CNone body
+      forallb junk pre && stmt_ok h && re_def h && trail_ok true tr && wf_seq CNone body
   | LImp pre s tr =>
-      forallb (junk_ok None) pre && stmt_ok s && top_import s && is_blank tr
+      forallb junk pre && stmt_ok s && top_import s && trail_ok true tr
   end.
 
 (* the guard of a whole script *)
 Definition top_layout_ok (u : text) (ts : list ltop) (final_junk : list text) : bool :=
-  unit_ok u && forallb (wf_top (ind_unit u)) ts && forallb junk final_junk.
+  unit_ok u && forallb wf_top ts && forallb junk final_junk.
 
 (* the nested guard for a snippet handed to _parse_simple_lines *)
 Definition layout_ok (u : text) (ns : list ltree) : bool :=
-  unit_ok u && wf_seq (ind_unit u) false O CNone ns.
+  unit_ok u && wf_seq CNone ns.
 
 (* ---------------------------------------------------------------- guard of the _collect_block theorem *)
 (* no exotic white space (Python knows only space, tab, form feed as layout characters) *)
@@ -222,10 +209,7 @@ Fixpoint lead_all (c : Z) (l : text) : bool :=
 Definition uniform_indent (lines : list text) : bool :=
   forallb (fun l => is_blank l || lead_all ch_space l) lines
   || forallb (fun l => is_blank l || lead_all ch_tab l) lines.
-(* ... and every comment-only line that Python places inside the span of the header's block is
-   indented deeper than the header *)
+(* (comment-only lines may stand at any column) *)
 Definition block_guard (lines : list text) (start : nat) : bool :=
   (start <? length lines)%nat && forallb plain_ws lines && uniform_indent lines
-  && py_logical (nth start lines [])
-  && forallb (fun l => negb (py_comment_only l) || (indent_of (nth start lines []) <? indent_of l)%nat)
-             (fst (py_block lines start)).
+  && py_logical (nth start lines []).
